@@ -122,7 +122,14 @@ func init() {
 			} else {
 				alts := make([]string, 0, len(alphabet))
 				seen := map[byte]bool{}
+				c.Lo, c.Hi = 255, 0
 				for j := 0; j < len(alphabet); j++ {
+					if int64(alphabet[j]) < c.Lo {
+						c.Lo = int64(alphabet[j])
+					}
+					if int64(alphabet[j]) > c.Hi {
+						c.Hi = int64(alphabet[j])
+					}
 					if !seen[alphabet[j]] {
 						seen[alphabet[j]] = true
 						alts = append(alts, fmt.Sprintf("(= %s %d)", c.T, alphabet[j]))
